@@ -584,7 +584,8 @@ def check_brew(tier, seed):
                "%d runs of brew (3 folds, test_fdr 0.2) + assign_confidence on one table of %d PSMs (100 spectra x 2, "
                "3 features, data seed %d): PercolatorModel(train_fdr=0.2) over text / Parquet row groups {1,3,n} x "
                "max_workers {1,2,4} and 7 settings of the brew constants; logistic-regression Model over "
-               "CHUNK_SIZE_ROWS_PREDICTION in {1,2,3,n-1,n,n+1,n/2,n/4}, CHUNK_SIZE_READ_ALL_DATA in "
+               "CHUNK_SIZE_ROWS_PREDICTION in {1,2,3,n-1,n,n+1,n/2,n/4} and {n/2+7,n/3+5} (partial last chunk that "
+               "holds every fold), CHUNK_SIZE_READ_ALL_DATA in "
                "{1,2,3,n-1,n,n+1}, random combinations of all four row constants, %s; reference per estimator: text, "
                "1 worker, default constants"
                % (len(cfgs), n, _brew_seed(seed),
@@ -661,6 +662,236 @@ def check_thread_timing(tier, seed):
             d = diff_results(cref[cfg["dedup"]]["files"], r["files"])
             if d:
                 ck.violation(TIE_CASE.get(d[0], "result-files-depend-on-thread-timing"), d[1], cfg)
+    return ck
+
+
+# ------------------------------------------------------------------------------------------ (3b) several files
+MULTI_SPECTRA = (100, 70, 45)     # spectra (x 2 PSMs) of the jointly analysed files: 200, 140 and 90 rows
+MULTI_ID = 100000                 # SpecId = MULTI_ID * file number + row number (tells the wrappers which file)
+ORDER_CASE = "multi-file-order-depends-on-thread-timing"
+ROWS_CASE = "multi-file-rows-depend-on-thread-timing"
+MULTI_SCORE_CASE = "multi-file-scores-depend-on-thread-timing"
+
+
+def multi_tables(seed, n_files, data=0):
+    """the table of brew_table plus one or two smaller ones (data seeds _brew_seed + (1000 + data) * file number);
+    SpecIds are disjoint"""
+    tabs = []
+    for k in range(n_files):
+        df = small_df(n_spec=MULTI_SPECTRA[k], dup=2, seed=_brew_seed(seed) + (1000 + data) * k, n_feat=3)
+        df["SpecId"] = df["SpecId"] + MULTI_ID * k
+        tabs.append(df)
+    return tabs
+
+
+MULTI_REFS = ((2, "lr", {}), (2, "perc", {}), (3, "lr", {"read": 40}), (3, "perc", {"read": 40}))
+_MULTI_DATA = {}
+
+
+def _learned(r):
+    """the reference brew succeeded and kept the learned model (1-D, almost tie-free scores)"""
+    return "scores" in r and all(np.ndim(s) == 1 and len(np.unique(s)) >= len(s) - 5 for s in r["scores"])
+
+
+def _multi_candidate(a):
+    seed, data = a
+    return all(_learned(run_multi(dict(seed=seed, data=data, mode="brew", files=files, fmt="csv", workers=1,
+                                       sleep=None, est=est, consts=consts))) for files, est, consts in MULTI_REFS)
+
+
+def _multi_data(seed):
+    """the first data offset 0, 1, ... for which the four reference brew runs (2 / 3 files x both estimators) keep
+    the learned model, so that the training sets decide the scores (on these small tables brew often falls back to
+    the best feature); candidates are tried 8 at a time in the pool, the first good one in order is taken"""
+    if seed not in _MULTI_DATA:
+        _brew_seed(seed)
+        _MULTI_DATA[seed] = 0
+        for start in range(0, 64, 8):
+            ok = _pool_map(_multi_candidate, [(seed, j) for j in range(start, start + 8)])
+            if any(ok):
+                _MULTI_DATA[seed] = start + ok.index(True)
+                break
+    return _MULTI_DATA[seed]
+
+
+def multi_train_idx(seed, lengths, folds=3):
+    """[fold][file] -> row numbers: a seeded random 60 % subset of every file in random order"""
+    rng = np.random.default_rng(seed + 77)
+    return [[[int(i) for i in rng.choice(n, (3 * n) // 5, replace=False)] for n in lengths] for _ in range(folds)]
+
+
+def _file_of(frames):
+    """file number of the per-fold lists of chunk frames handed to concat_and_reindex_chunks"""
+    for fold in frames:
+        for fr in fold:
+            if len(fr):
+                return int(fr["SpecId"].iloc[0]) // MULTI_ID
+    return 0
+
+
+@contextmanager
+def perturbed_tasks(sleep, n_files):
+    """wrap the two task functions of parse_in_chunks with sleeps (the functions themselves are untouched; they are
+    looked up in mokapot.parsers.pin at call time, also when brew calls the parse_in_chunks it imported by name).
+    sleep None: no wrappers.  'later-first': the concat/reindex task of file k sleeps 80 ms x (files - 1 - k), so
+    the tasks of later files finish before those of earlier files.  An int: seeded random U(0,120ms) per file.
+    The chunk-reading tasks sleep a seeded U(0,8ms) that depends on (file, first row of the chunk) only, so the
+    delays do not depend on the order in which the threads reach the wrappers."""
+    pin_mod = importlib.import_module("mokapot.parsers.pin")
+    saved = (pin_mod.concat_and_reindex_chunks, pin_mod.get_rows_from_dataframe)
+    if sleep is not None:
+        salt = 0 if sleep == "later-first" else int(sleep) + 1
+
+        def slow_concat(df, orig_idx):
+            k = _file_of(df)
+            if sleep == "later-first":
+                time.sleep(0.08 * (n_files - 1 - k))
+            else:
+                time.sleep(random.Random(7919 * salt + k).uniform(0, 0.12))
+            return saved[0](df=df, orig_idx=orig_idx)
+
+        def slow_rows(idx, chunk, train_psms, psms, file_idx):
+            first = int(chunk.index[0]) if len(chunk) else 0
+            time.sleep(random.Random(1000003 * salt + 10007 * file_idx + first).uniform(0, 0.008))
+            return saved[1](idx, chunk, train_psms, psms, file_idx)
+        pin_mod.concat_and_reindex_chunks = slow_concat
+        pin_mod.get_rows_from_dataframe = slow_rows
+    try:
+        yield pin_mod
+    finally:
+        pin_mod.concat_and_reindex_chunks, pin_mod.get_rows_from_dataframe = saved
+
+
+def run_multi(cfg):
+    """cfg: seed, data (offset of the data seeds), mode 'parse'|'brew', files 2|3, fmt 'csv'|'pq', workers,
+    sleep None|'later-first'|int, parse: chunk (rows per reading task); brew: est, consts"""
+    brew_mod = importlib.import_module("mokapot.brew")
+    tabs = multi_tables(cfg["seed"], cfg["files"], cfg.get("data", 0))
+    try:
+        with scratch("c05m_") as d:
+            dss = [make_ds(df, Path(d) / ("in%d.%s" % (k, "parquet" if cfg["fmt"] == "pq" else "pin")))
+                   for k, df in enumerate(tabs)]
+            with perturbed_tasks(cfg.get("sleep"), len(tabs)) as pin_mod:
+                if cfg["mode"] == "parse":
+                    idx = multi_train_idx(cfg["seed"], [len(t) for t in tabs])
+                    frames = pin_mod.parse_in_chunks(psms=dss, train_idx=idx, chunk_size=cfg["chunk"],
+                                                     max_workers=cfg["workers"])
+                    return {"frames": [f.copy() for f in frames]}
+                with constants(cfg.get("consts")):
+                    _, _, scores, descs = brew_mod.brew(dss, make_model(cfg["est"], cfg["seed"], False), test_fdr=0.2,
+                                                        folds=3, max_workers=cfg["workers"], rng=cfg["seed"])
+                return {"scores": [np.asarray(s) for s in scores], "descs": list(descs)}
+    except BaseException as e:
+        return {"error": e if isinstance(e, Exception) else RuntimeError(repr(e))}
+
+
+def diff_frames(ref, got):
+    """None if the two lists of training frames are identical (same rows in the same order, same index, same
+    columns and values), else (case id, message)"""
+    if len(ref) != len(got):
+        return ROWS_CASE, "%d training frames vs %d" % (len(ref), len(got))
+    for f, (a, b) in enumerate(zip(ref, got)):
+        ia, ib = [int(v) for v in a["SpecId"]], [int(v) for v in b["SpecId"]]
+        if ia != ib:
+            if sorted(ia) == sorted(ib):
+                k = next(j for j in range(len(ia)) if ia[j] != ib[j])
+                return ORDER_CASE, "training frame of fold %d: same rows in another order (position %d: SpecId %d " \
+                    "(file %d) vs %d (file %d))" % (f + 1, k, ia[k], ia[k] // MULTI_ID + 1, ib[k], ib[k] // MULTI_ID + 1)
+            return ROWS_CASE, "training frame of fold %d holds other rows (%d vs %d rows)" % (f + 1, len(ia), len(ib))
+        if list(a.columns) != list(b.columns) or list(a.index) != list(b.index) or not a.equals(b):
+            return "multi-file-values-depend-on-thread-timing", "training frame of fold %d: same SpecIds in the " \
+                "same order but other columns / index / values" % (f + 1)
+    return None
+
+
+def _multi_ref(c):
+    """reference of a run: the same files, format and constants, one worker, no delays"""
+    return dict(c, workers=1, sleep=None)
+
+
+def _judge_multi(ck, cfg, r, ref):
+    if "error" in ref:
+        ck.violation("reference-run-failed", repr(ref["error"]), _multi_ref(cfg))
+    elif "error" in r:
+        ck.violation("run-failed-%s" % type(r["error"]).__name__, "%s on %d files raised %r"
+                     % (cfg["mode"], cfg["files"], r["error"]), cfg)
+    elif cfg["mode"] == "parse":
+        d = diff_frames(ref["frames"], r["frames"])
+        if d:
+            ck.violation(d[0], d[1], cfg)
+    else:
+        if r["descs"] != ref["descs"] or len(r["scores"]) != len(ref["scores"]):
+            ck.violation(MULTI_SCORE_CASE, "score direction / number of score vectors %s, %d vs %s, %d"
+                         % (r["descs"], len(r["scores"]), ref["descs"], len(ref["scores"])), cfg)
+            return
+        for k, (a, b) in enumerate(zip(ref["scores"], r["scores"])):
+            d = diff_scores(a, b)
+            if d:
+                ck.violation(MULTI_SCORE_CASE, "file %d of %d: %s" % (k + 1, cfg["files"], d), cfg)
+                return
+
+
+def check_multi_file_timing(tier, seed):
+    """two or three jointly analysed files: the training set of a fold is file1[idx1] + file2[idx2] (+ file3[idx3])
+    whatever the order in which the per-file tasks of parse_in_chunks finish"""
+    delays = ["later-first", None] + [1000 * seed + k for k in range(1 if tier == "quick" else 6)]
+    data = _multi_data(seed)
+    cfgs = []
+    for files in (2, 3):
+        fmts = ("csv",) if files == 2 else ("pq",)
+        if tier != "quick":
+            fmts = ("csv", "pq")
+        for fmt in fmts:
+            for w in (2, 4):
+                for sleep in delays:
+                    for chunk in (7, 64, 1000):
+                        if tier == "quick" and chunk == 64 and sleep != "later-first":
+                            continue
+                        cfgs.append(dict(seed=seed, data=data, mode="parse", files=files, fmt=fmt, workers=w, sleep=sleep,
+                                         chunk=chunk))
+                    for est in ("lr", "perc"):
+                        # the logistic regression is blind to the row order of its training set (differences of
+                        # 1e-15 measured); PercolatorModel's cross-validation split is positional and is not
+                        if sleep is None or (tier == "quick" and est == "lr" and (sleep != "later-first" or w == 4)):
+                            continue
+                        cfgs.append(dict(seed=seed, data=data, mode="brew", files=files, fmt=fmt, workers=w, sleep=sleep,
+                                         est=est, consts={"read": 40} if files == 3 else {}))
+    n_parse = sum(1 for c in cfgs if c["mode"] == "parse")
+    ck = ClassCheck("multi_file_thread_timing", "mokapot.parsers.pin.parse_in_chunks, mokapot.brew.brew",
+                    "%d runs of parse_in_chunks (3 training sets = seeded random 60 %% of every file in random order; "
+                    "reading tasks of 7, 64 or 1000 rows) and %d runs of brew (3 folds, test_fdr 0.2, logistic-"
+                    "regression Model and PercolatorModel(train_fdr=0.2); CHUNK_SIZE_READ_ALL_DATA 40 for 3 files) "
+                    "on 2 files (200 + 140 PSMs%s) and 3 files (200 + 140 + 90 PSMs%s) analysed jointly, data seeds "
+                    "%d + (1000 + %d) x file number, max_workers {2,4}; the per-file concat/reindex tasks sleep 80 ms x (files - 1 - file number) "
+                    "(later files finish first) or a seeded U(0,120ms) (%d delay seed(s)), the chunk-reading tasks a "
+                    "seeded U(0,8ms); parse_in_chunks also without delays; reference of each run: same files, format "
+                    "and constants, 1 worker, no delays"
+                    % (n_parse, len(cfgs) - n_parse, ", text" if tier == "quick" else ", text and Parquet",
+                       ", Parquet" if tier == "quick" else ", text and Parquet", _brew_seed(seed), data, len(delays) - 2),
+                    "parse_in_chunks: the returned frames are identical to the reference (same rows, same order, same "
+                    "index and values); brew: the scores of every file within 1e-9; non-trivial = several threads "
+                    "and the per-file tasks are delayed (for brew also: the reference keeps the learned model, so "
+                    "that the training sets decide the scores; the scores of the logistic regression react to the "
+                    "row order of a training set by 1e-15 only, those of PercolatorModel (positional cross-validation "
+                    "split) by 0.1 and more)")
+    rcfgs = []
+    for c in cfgs:
+        if _multi_ref(c) not in rcfgs:
+            rcfgs.append(_multi_ref(c))
+    refs = dict(zip([json.dumps(c, sort_keys=True) for c in rcfgs], _pool_map(run_multi, rcfgs)))
+    # the reference itself must not depend on the size of the reading tasks
+    for c in rcfgs:
+        if c["mode"] == "parse" and c["chunk"] != 1000:
+            a, b = refs[json.dumps(dict(c, chunk=1000), sort_keys=True)], refs[json.dumps(c, sort_keys=True)]
+            ck.case(c, nontrivial=True)
+            if "error" in a or "error" in b:
+                ck.violation("reference-run-failed", repr(a.get("error", b.get("error"))), c)
+            elif diff_frames(a["frames"], b["frames"]):
+                ck.violation("multi-file-frames-depend-on-read", diff_frames(a["frames"], b["frames"])[1], c)
+    for cfg, r in zip(cfgs, _pool_map(run_multi, cfgs)):
+        ref = refs[json.dumps(_multi_ref(cfg), sort_keys=True)]
+        ck.case(cfg, nontrivial=cfg["sleep"] is not None and (cfg["mode"] == "parse" or _learned(ref)))
+        _judge_multi(ck, cfg, r, ref)
     return ck
 
 
@@ -757,6 +988,9 @@ def REPLAY(check_name, violation):
     elif check_name in ("brew_chunks_workers_format", "thread_timing"):
         ref = run_brew(dict(inp, consts={}, workers=1, fmt="csv", sleep=None))
         _judge_brew(ck, inp, run_brew(inp), ref)
+    elif check_name == "multi_file_thread_timing":
+        ref = run_multi(dict(_multi_ref(inp), chunk=1000) if inp["mode"] == "parse" else _multi_ref(inp))
+        _judge_multi(ck, inp, run_multi(inp), ref)
     elif check_name == "read_pin_chunks":
         ref = run_read_pin(dict(inp, consts={}, workers=1, fmt="csv"))
         r = run_read_pin(inp)
@@ -773,9 +1007,12 @@ if __name__ == "__main__":
     np.random.seed(a.seed)
     emit([check_confidence_chunks(a.tier, a.seed), check_duplicates_across_chunks(a.tier, a.seed),
           check_tied_scores(a.tier, a.seed),
-          check_brew(a.tier, a.seed), check_thread_timing(a.tier, a.seed), check_read_pin(a.tier, a.seed)],
+          check_brew(a.tier, a.seed), check_thread_timing(a.tier, a.seed),
+          check_multi_file_timing(a.tier, a.seed), check_read_pin(a.tier, a.seed)],
          ["datasets are built without the PIN parser (harness.datasets.make_ds) except in read_pin_chunks",
           "max_workers is limited to {1,2,4}; thread schedules are perturbed by sleeps, not enumerated",
+          "joint analysis of several files is exercised in multi_file_thread_timing only (2 and 3 files of different "
+          "sizes); all other checks use one file",
           "the sweep of the brew constants uses a logistic-regression Model (3 iterations) for speed; the "
           "Percolator model is run over formats x workers and 7 settings of the brew constants",
           "prediction chunks smaller than the table are expected to fail with the known defect "
